@@ -299,6 +299,20 @@ func (c01) RunCase(c *core.Ctx) {
 			return
 		}
 	}
+	if c.Case%100 == 45 {
+		c.Eval(8)
+		outs, _ := dValidateNilEmbedded(4)
+		for o := range outs {
+			if strings.Contains(o, "ptrKey=false: returned []") {
+				c.Violation("success-but-required-absent|Validate", map[string]any{"schema": "{Rev: Int().Required(), By: String().Required(), title: String().Required()} validating struct{ *DStamp(nil); Title }", "observed": o})
+				return
+			}
+		}
+		if problem := dWideAndDeep(); problem != "" && strings.HasPrefix(problem, "Validate") {
+			c.Violation("success-but-invalid|Validate", map[string]any{"observed": problem})
+			return
+		}
+	}
 	if c.Case%100 == 43 {
 		c.Eval(2)
 		if _, problem := dPreprocessAbsent(); problem != "" {
